@@ -32,13 +32,13 @@ theorem C09_no_agents_kill_now (s : State) (k : ShutKind) (p : Proc) (hn : s.age
 theorem C09_term_first (s : State) (k : ShutKind) (p : Proc) (hn : s.agents ≠ [])
     (hp : procByFull s (rtFull s) = some p) (hc : p.chanCreated = true) :
     shutdownBody s k =
-      { (supTerm { s with timers := s.timers ++ ["rtDeadline", "agDeadline"] } p.full) with orch := .sRuntime k } := by
+      { (supTerm { s with timers := s.timers ++ [.rtDeadline, .agDeadline] } p.full) with orch := .sRuntime k } := by
   have : (s.agents.length == 0) = false := by
     cases h : s.agents with
     | nil => exact absurd h hn
     | cons _ _ => simp
-  have e : procByFull { s with timers := s.timers ++ ["rtDeadline", "agDeadline"] }
-      (rtFull { s with timers := s.timers ++ ["rtDeadline", "agDeadline"] }) = some p := hp
+  have e : procByFull { s with timers := s.timers ++ [.rtDeadline, .agDeadline] }
+      (rtFull { s with timers := s.timers ++ [.rtDeadline, .agDeadline] }) = some p := hp
   simp only [shutdownBody, this, Bool.false_eq_true, ↓reduceIte, e, hc]
 
 /-- **Kill of the runtime only at its deadline.** While waiting for the runtime (`sRuntime`) the
@@ -79,13 +79,13 @@ theorem C09_returns_after_reaped (s : State) (k : ShutKind) (from_ : Nat) (ho : 
 -- with a SHUTDOWN-subscribed extension: TERM first, kill only after the deadline timers
 example :
     let s := step 0 (step 0 {} (.invoke 0 5 "h")) .rtNext
-    (step 0 s (.timer "invoke:0")).out = ["sup kill:runtime-1", "sup exited:runtime-1:sig9"] := by decide
+    (step 0 s (.timer (.invoke 0))).outs = ["sup kill:runtime-1", "sup exited:runtime-1:sig9"] := by decide
 
 example :
     let s0 : State := { extFiles := ["a"] }
     let s := step 0 (step 0 (step 0 (step 0 s0 (.invoke 0 5 "h")) (.register "a" [.shutdown] "")) (.agNext "a" "")) .rtNext
-    let t := step 0 s (.timer "invoke:0")
-    t.out = ["sup term:runtime-1"] ∧ (step 0 t (.timer "rtDeadline")).out.contains "sup kill:runtime-1" = true := by
+    let t := step 0 s (.timer (.invoke 0))
+    t.outs = ["sup term:runtime-1"] ∧ (step 0 t (.timer .rtDeadline)).outs.contains "sup kill:runtime-1" = true := by
   decide
 
 end Rie.Props.C09
